@@ -82,7 +82,7 @@ def summary():
 
 if __name__ == "__main__":
     args = [a for a in sys.argv[1:] if not a.startswith("--")]
-    ids = args or sorted(x for x in os.listdir(SEEDED) if os.path.isdir(os.path.join(SEEDED, x)))
+    ids = args or sorted(x for x in os.listdir(SEEDED) if os.path.isdir(os.path.join(SEEDED, x)) and not x.startswith("_"))
     for sid in ids:
         meta = json.load(open(os.path.join(SEEDED, sid, "meta.json")))
         props = [meta["property"]] if "--own-only" in sys.argv else claimed()
